@@ -70,6 +70,9 @@ type repModel struct {
 	taken      map[string]bool // snapshot names whose files exist
 }
 
+// retained: user-created and not deleted by the user - the snapshots C06 speaks about.
+func (s *mSnap) retained() bool { return s.user && !s.removed }
+
 // chain returns snapshot names from latest to base.
 func (m *repModel) chain() []string {
 	var c []string
@@ -924,12 +927,15 @@ func (rr *repRun) exec(i int, op Op) {
 			rr.note("revert", "skip")
 			return
 		}
-		if m.open && rr.punchEver && !m.snaps[target].user {
+		if m.open && rr.punchEver && !m.snaps[target].retained() {
 			// Reverting to an automatic snapshot while reclamation is (or was) on is
-			// explicitly unpromised (C06): pick the nearest user-created snapshot instead.
+			// explicitly unpromised (C06); so is reverting to a user-created snapshot that the
+			// user has deleted (marked removed, waiting for the cleaner): it is no longer
+			// "retained", and a thinned automatic snapshot may have been folded into it.
+			// Pick the nearest retained user-created snapshot instead.
 			alt := ""
 			for _, n := range m.chain() {
-				if m.snaps[n].user {
+				if m.snaps[n].retained() {
 					alt = n
 					break
 				}
@@ -963,7 +969,7 @@ func (rr *repRun) exec(i int, op Op) {
 		m.dirty = true
 		rr.mutations++
 		// the image the volume now shows must be the snapshot's (C06, revert clause)
-		auto := !m.snaps[target].user
+		auto := !m.snaps[target].retained()
 		if auto && rr.punchEver {
 			// Nothing is promised about reverting to an automatic snapshot while
 			// reclamation is (or was) on: holes for blocks shadowed by later writes may
@@ -1384,7 +1390,7 @@ func (rr *repRun) removeSnapshot(target, kind string) {
 					parent.tainted = true
 				}
 				parent.image = sn.image
-				if sn.tainted {
+				if sn.tainted || (rr.punchEver && !sn.retained()) {
 					parent.tainted = true
 				}
 				rr.compareLive(rr.c11or01(), "live-changed-by-refused-deletion")
@@ -1412,7 +1418,9 @@ func (rr *repRun) removeSnapshot(target, kind string) {
 	}
 	parent.image = sn.image
 	parent.rev = sn.rev
-	if sn.tainted {
+	if sn.tainted || (rr.punchEver && !sn.retained()) {
+		// (a snapshot that reclamation may have thinned was folded in: the parent's content is
+		// then "the thinned image", which no property pins)
 		parent.tainted = true
 	}
 	for _, o := range m.snaps {
